@@ -1,8 +1,8 @@
 """Size dimension shared by the harnesses: lengths / counts straddling every integer constant of the source tree
 (symcheck/consts.py) and concrete fill patterns for long texts."""
-from symcheck.consts import size_cases, pick  # noqa: F401
+from symcheck.consts import size_cases, pick, source_ints  # noqa: F401
 
-for _lim in (62, 110, 210, 410, 1100, 70000, 140000):
+for _lim in (12, 32, 62, 110, 210, 410, 1100, 70000, 140000):
     size_cases(_lim)  # scanned at import time (a scan inside a traced path would be repeated per path)
 
 # sizes that come from the ENVIRONMENT rather than from the source: pipe buffer, default stream buffer sizes
